@@ -1203,7 +1203,9 @@ impl<'source> Parser<'source> {
                 Token::Id => {
                     self.consume_token_with_context(&args_context);
                     let id = self.add_current_slice_as_string_constant()?;
-                    function_frame.ids_assigned_in_frame.insert(id);
+                    if !function_frame.ids_assigned_in_frame.insert(id) {
+                        return self.error(SyntaxError::DuplicateArgumentName);
+                    }
                     let type_hint = self.parse_type_hint(&args_context)?;
                     let arg = self.push_node_with_span(Node::Id(id, type_hint), arg_span)?;
 
@@ -1496,7 +1498,9 @@ impl<'source> Parser<'source> {
                 } else {
                     Node::Id(id, self.parse_type_hint(arg_context)?)
                 };
-                function_frame.ids_assigned_in_frame.insert(id);
+                if !function_frame.ids_assigned_in_frame.insert(id) {
+                    return self.error(SyntaxError::DuplicateArgumentName);
+                }
                 self.push_node_with_span(arg_node, arg_span)
             }
             Token::Underscore => {
@@ -4539,7 +4543,9 @@ impl<'a> BindingContext<'a> {
                 parser.frame_mut()?.ids_assigned_in_frame.insert(id);
             }
             Function(frame) => {
-                frame.ids_assigned_in_frame.insert(id);
+                if !frame.ids_assigned_in_frame.insert(id) {
+                    return parser.error(SyntaxError::DuplicateArgumentName);
+                }
             }
         }
 
